@@ -1,0 +1,74 @@
+"""
+Verification hooks (no effect unless the environment variable AEGEAN_VERIF=1
+is set *and* AEGEAN_VERIF_DIR names a directory).
+
+point(stripe, name, **fields) is called at the phase boundaries of
+BANE.sigma_filter / filter_mc_sharemem.  With the guard on it
+
+* appends one JSON line {seq, pid, stripe, point, ...} to
+  $AEGEAN_VERIF_DIR/events.ndjson; `seq` comes from a counter file updated
+  under an exclusive flock, so the log is one total order without any
+  wall-clock time;
+* if $AEGEAN_VERIF_DIR/fault contains "<stripe> <name>" raises an injected
+  RuntimeError at that point (after logging it);
+* if the directory $AEGEAN_VERIF_DIR/gate exists, blocks until the file
+  gate/<stripe>.<name> (or gate/ALL) exists, which lets a scheduler force an
+  interleaving of the worker processes.
+"""
+import fcntl
+import json
+import os
+import time
+
+ENABLED = os.environ.get("AEGEAN_VERIF") == "1" and \
+    bool(os.environ.get("AEGEAN_VERIF_DIR"))
+
+
+def _dir():
+    return os.environ.get("AEGEAN_VERIF_DIR")
+
+
+def point(stripe, name, **fields):
+    d = _dir()
+    if not ENABLED or not d or not os.path.isdir(d):
+        return
+    fault = False
+    fpath = os.path.join(d, "fault")
+    if os.path.exists(fpath):
+        try:
+            with open(fpath) as f:
+                fault = f.read().split() == [str(stripe), name]
+        except OSError:
+            fault = False
+    rec = dict(fields)
+    rec.update({"pid": os.getpid(), "stripe": stripe, "point": name})
+    if fault:
+        rec["fault"] = True
+    with open(os.path.join(d, "seq.lock"), "a+") as lock:
+        fcntl.flock(lock, fcntl.LOCK_EX)
+        lock.seek(0)
+        txt = lock.read().strip()
+        seq = int(txt) + 1 if txt else 1
+        lock.seek(0)
+        lock.truncate()
+        lock.write(str(seq))
+        lock.flush()
+        rec["seq"] = seq
+        with open(os.path.join(d, "events.ndjson"), "a") as out:
+            out.write(json.dumps(rec, sort_keys=True) + "\n")
+            out.flush()
+        fcntl.flock(lock, fcntl.LOCK_UN)
+    if fault:
+        raise RuntimeError("AEGEAN_VERIF injected fault at {0} {1}".format(
+            stripe, name))
+    gate = os.path.join(d, "gate")
+    if os.path.isdir(gate):
+        mine = os.path.join(gate, "{0}.{1}".format(stripe, name))
+        everyone = os.path.join(gate, "ALL")
+        limit = float(os.environ.get("AEGEAN_VERIF_GATE_TIMEOUT", "120"))
+        t0 = time.time()
+        while not (os.path.exists(mine) or os.path.exists(everyone)):
+            if time.time() - t0 > limit:
+                break
+            time.sleep(0.002)
+    return
